@@ -1,6 +1,6 @@
 SPECIFICATION MCSpec
 CONSTANTS
-  MaxOut = 3
+  MaxOut = 5
   BindFixed = FALSE
 INVARIANTS Paired Quiescent
 CHECK_DEADLOCK FALSE
